@@ -49,6 +49,9 @@ pub struct C10Case {
     /// the signal is sent - processes replaced along the way must be gone too.
     #[serde(default)]
     pub churn: u8,
+    /// async-std runtime threads of the zinoma process (0 = default).
+    #[serde(default)]
+    pub runtime_threads: u8,
 }
 
 pub fn c10_case() -> impl Strategy<Value = C10Case> {
@@ -57,10 +60,10 @@ pub fn c10_case() -> impl Strategy<Value = C10Case> {
         prop::collection::vec(any::<u8>(), 1..=3),
         prop::collection::vec(any::<u8>(), 8),
         (any::<bool>(), 0u8..8, any::<u8>(), 0usize..5, 0u16..300, any::<bool>()),
-        (0u8..10, 100usize..700, 0u8..2, any::<bool>(), 0u8..3, 0u8..6),
+        (0u8..10, 100usize..700, 0u8..2, any::<bool>(), 0u8..3, 0u8..6, prop::sample::select(vec![0u8, 0, 0, 1, 1, 2, 4])),
     )
         .prop_map(
-            |(raw, rootsel, longb, (watch, cause_b, failing_b, wait_for, delay_ms, double_signal), (large_b, large_size, large_shape, slow_check, non_exec_b, churn_b))| {
+            |(raw, rootsel, longb, (watch, cause_b, failing_b, wait_for, delay_ms, double_signal), (large_b, large_size, large_shape, slow_check, non_exec_b, churn_b, runtime_threads))| {
                 let graph = build_graph(&raw);
                 let n = graph.n();
                 let roots = pick_roots(&graph, &rootsel);
@@ -88,6 +91,7 @@ pub fn c10_case() -> impl Strategy<Value = C10Case> {
                     slow_check: slow_check && large == 0,
                     non_exec: non_exec_b == 0 && large == 0,
                     churn: if watch && large == 0 && churn_b >= 3 { churn_b - 2 } else { 0 },
+                    runtime_threads,
                 }
             },
         )
@@ -330,6 +334,7 @@ fn describe(pids: &[i32]) -> Vec<String> {
 }
 
 pub fn eval_c10(c: &C10Case) -> CaseResult {
+    set_runtime_threads(c.runtime_threads);
     let p = plan(c);
     let g = &p.graph;
     let sb = Sandbox::new("c10");
@@ -371,6 +376,9 @@ pub fn eval_c10(c: &C10Case) -> CaseResult {
     }
     if c.non_exec {
         classes.push("non-exec-scripts".to_string());
+    }
+    if c.runtime_threads > 0 {
+        classes.push(format!("runtime-threads-{}", c.runtime_threads));
     }
     let sample = json!({
         "mode": mode, "cause": format!("{:?}", cause), "wait_for": wait_for, "delay_ms": c.delay_ms,
